@@ -166,6 +166,18 @@ pub fn check_exact_queries<D: Distance>(
         }
         v
     };
+    // "On any built index": whatever this thread searched before. A budget-limited query (which stops with work left in
+    // its traversal queue) comes right before the exact queries and right after them, so that the next exact query on
+    // this thread - another round, another index, another case - follows one (seeded change C02/r3: a per-thread
+    // traversal queue that is handed back undrained). Its own result is C03's business and is ignored here.
+    let limited = |st: &mut CaseStats| {
+        if let Some(qv) = query_vectors(isp, m, qseed, 1).first() {
+            let q = Q { count: 1, search_k: Some(1), oversampling: None, candidates: None, by: By::Vector(qv) };
+            let _ = run_query(reader, rtxn, &q);
+            st.bump("limited_query_next_to_exact_ones");
+        }
+    };
+    limited(st);
     for qv in query_vectors(isp, m, qseed, 2) {
         for count in pick_counts(2) {
             let q = Q { count, search_k: Some(usize::MAX), oversampling: None, candidates: None, by: By::Vector(&qv) };
@@ -211,6 +223,7 @@ pub fn check_exact_queries<D: Distance>(
             }
         }
     }
+    limited(st);
     Ok(())
 }
 
